@@ -23,7 +23,16 @@ IdEv(e) ==
      ELSE "ok"
   ELSE LET f == PkeskFields(e.body) IN
      IF ~f.ok \/ f.keyid # SubSeq(e.fpr, 13, 20) \/ ~e.verifies THEN "C18.id-fields" ELSE "ok"
-Judge(e) == CASE e.k = "fpr" -> FprEv(e) [] e.k = "idfield" -> IdEv(e) [] OTHER -> "harness.unknown-event"
+\* a stand-alone key attached as a subkey: the public fields (version, creation time, algorithm, key material) of the subkey packet are
+\* those of the key packet it was made from, and so is the fingerprint reported
+PubFields(body) == SubSeq(body, 1, PubEnd(body) - 1)
+AttachEv(e) ==
+  LET kb0 == KeyBodies(e.before)  kb1 == KeyBodies(e.after) IN
+  IF Len(kb0) < 1 \/ Len(kb1) < e.index \/ PubEnd(kb0[1]) = 0 \/ PubEnd(kb1[e.index]) = 0 THEN "harness.attach-layout"
+  ELSE IF PubFields(kb1[e.index]) # PubFields(kb0[1]) THEN "C18.stable"
+  ELSE IF e.fpr_after # e.fpr_before \/ e.fpr_object # e.fpr_before THEN "C18.stable"
+  ELSE "ok"
+Judge(e) == CASE e.k = "attach" -> AttachEv(e) [] e.k = "fpr" -> FprEv(e) [] e.k = "idfield" -> IdEv(e) [] OTHER -> "harness.unknown-event"
 Init == i = 1
 Next == /\ i <= Len(Events) + 1
         /\ IF i = Len(Events) + 1 THEN PrintT(<<"DONE", Len(Events)>>)
